@@ -209,6 +209,8 @@ def run(tier, seed, only_case=None):
                      "a failed re-creation over a collection that was recognised before is outside the domain (exempted explicitly)"]
     if only_case is None:
         r.model_check("MC_Create", "MC_Create_quick.cfg" if tier == "quick" else "MC_Create_thorough.cfg")
+        # documented limit of the domain: re-creating at the ROOT over an existing cooler leaves it half recognised (TLC refutes)
+        r.expect_refuted("MC_Create", "MC_Create_rootlimit.cfg", "RootRecreateNeverHalfRecognised")
         cs = cases(tier, seed)
     else:
         cs = [only_case]
